@@ -563,6 +563,18 @@ func (f *Frame) intrinsic(name string, callee *ssa.Function, args []Val, pos tok
 		v := args[0]
 		arr := fmt.Sprintf("(select %s (sbase %s))", c.heap(f.st, hn, hs), v.S)
 		return Val{T: types.Typ[types.String], S: c.bind("mem2str", fmt.Sprintf("(mkstr %s (xoff %s) (xlen %s) (sbase %s))", arr, v.S, v.S, v.S), "Str")}, true
+	case "github.com/bytedance/sonic/internal/rt.Str2Mem":
+		// slice header over the string's memory: the string's own buffer when it is a view of one,
+		// otherwise (immutable string data) a read-only array modelled as a new array with the same contents
+		c.note("rt.Str2Mem modelled as a slice over a copy of immutable string data (or over the buffer the string is a view of)")
+		s := args[0]
+		nb := c.fresh("str2mem", "Int")
+		f.assumeFresh(nb)
+		hn, hs := c.heapNameArr(types.Typ[types.Uint8])
+		h := c.heap(f.st, hn, hs)
+		f.st.heaps[hn] = c.bind(hn, fmt.Sprintf("(store %s %s (sarr %s))", h, nb, s.S), hs)
+		base := fmt.Sprintf("(ite (= (sown %s) 0) %s (sown %s))", s.S, nb, s.S)
+		return Val{T: callee.Signature.Results().At(0).Type(), S: c.bind("str2mem", fmt.Sprintf("(mkslice %s (soff %s) (slen %s) (slen %s))", base, s.S, s.S, s.S), "Slice")}, true
 	case "github.com/bytedance/sonic/internal/rt.NoEscape":
 		return args[0], true
 	case "sync/atomic.LoadPointer", "sync/atomic.LoadUint64", "sync/atomic.LoadInt64", "sync/atomic.LoadUint32", "sync/atomic.LoadInt32", "sync/atomic.LoadUintptr":
